@@ -1,4 +1,4 @@
 SPECIFICATION GenSpec
-CONSTANTS TS <- TS21 W = 2 H = 2 FillMode = TRUE
+CONSTANTS TS <- TS31 W = 3 H = 3 FillMode = TRUE
 INVARIANT EmitBitmap
 CHECK_DEADLOCK FALSE
